@@ -620,6 +620,12 @@ theorem C02_facts_body_API_mapDecodeNum : body_API_mapDecodeNum = Hive.Spec.Dese
 
 theorem C02_facts_body_SerializableOrderedMap_Decode : body_SerializableOrderedMap_Decode = Hive.Spec.DeserFacts.body_SerializableOrderedMap_Decode := rfl
 
+theorem C02_facts_body_CheckType : body_CheckType = Hive.Spec.DeserFacts.body_CheckType := rfl
+
+theorem C02_facts_body_CheckTypeByte : body_CheckTypeByte = Hive.Spec.DeserFacts.body_CheckTypeByte := rfl
+
+theorem C02_facts_body_numSize : body_numSize = Hive.Spec.DeserFacts.body_numSize := rfl
+
 /-- the operands that denote the TARGET value (a `reflect.Value` of the registered Go type), not the JSON document -/
 def targetOperands : List String := ["value.Interface()", "value.Addr().Interface()", "deserializable"]
 
